@@ -3,6 +3,7 @@ import CTV.Lemmas.DerTotal
 import CTV.Lemmas.DerHeader
 import CTV.Gen.Asn1Lax
 import CTV.Lemmas.DerMarshal
+import CTV.Lemmas.DerCanonStrict
 /-!
 # C10 — The ASN.1 fork is as strict as upstream; lax mode only adds acceptances
 
@@ -206,11 +207,18 @@ theorem marshal_parse_primitives :
   ⟨parseBool_roundtrip, parseInt64_roundtrip, parseInt32_roundtrip, parseBigInt_roundtrip, parseBitString_roundtrip,
    fun d hd c arcs h => parseOID_roundtrip d hd c arcs h⟩
 
+/-- **canon ⊆ strict.** `Canon` only adds tests to `strict` (and switches the base-128 minimality test on): whatever `canon` accepts,
+`Unmarshal` accepts with the same value and the same remainder, in every dialect. So `marshal_parse` is a statement about inputs the
+strict decoder accepts, decoded to the value the strict decoder gives. -/
+theorem canon_sub_strict (d : Dialect) (t : ATy) (p : FP) (bs : Bytes) (v : AVal) (rest : Bytes)
+    (h : parseField d .canon t p bs = .ok (v, rest)) : parseField d .strict t p bs = .ok (v, rest) :=
+  parseField_canon_strict d t p bs _ h
+
 /- FULL (still open, the converse direction): parse_marshal —
      WfVal t p v → marshalField d t p v = .ok b → parseField d .canon t p (b ++ rest) = .ok (v, rest)
    i.e. `Canon` contains everything `Marshal` writes (non-vacuity of `Canon` independent of the parser). Not proved; what stands in
-   for it: the `c` lines (the implementation's Marshal∘Unmarshal is exact ⇔ the model's `canon` accepts), and
-   canon_sub_strict: parseField d .canon t p bs = .ok x → parseField d .strict t p bs = .ok x, likewise checked by those lines only. -/
+   for it: the `c` lines of the harness (the implementation's Marshal∘Unmarshal is exact ⇔ the model's `canon` accepts; about half of
+   all generated inputs are canon-accepted), and the instance below. -/
 
 -- an instance: strict DER for a struct with an optional defaulted field, an explicit tag and a SET OF; Canon accepts, marshal reproduces
 example :
